@@ -901,3 +901,25 @@ impl UtxoSet {
 //@|     assert(0 <= bal_mid_rem(vp_ub, address, vp_chain_view, vp_b0, i as int, itr.index@ + 1) <= u64::MAX);
 //@| }
 //@end
+
+// ---- C01: "with its true value and the height of the block containing it": the closure of AddressUtxoSet::into_iter that turns a
+// ---- stable outpoint into a Utxo (address_utxoset.rs:96) -------------------------------------------------------------------------
+uninterp spec fn stable_utxo_spec(u: &UtxoSet, o: OutPoint) -> Option<(TxOut, Height)>;
+impl UtxoSet {
+    // [trusted:stand-in] UtxoSet::get_utxo (stable map lookup): a function of the stable set and the outpoint
+    #[verifier::external_body]
+    fn get_utxo(&self, outpoint: &OutPoint) -> (r: Option<(TxOut, Height)>) ensures r == stable_utxo_spec(self, *outpoint) { unimplemented!() }
+}
+//@slice file=canister/src/address_utxoset.rs in="impl<'a> AddressUtxoSet<'a>" item="fn into_iter" block_after=".map(move |outpoint| {" props=C01
+//@ rewrite R10 "\.unwrap_or_else\(\|\| \{\s*vp_trap\(\);\s*\}\)" => ".unwrap()"
+//@ head
+//@| // R8 slice: the closure that looks a stable outpoint up in the stable UTXO set
+//@| fn into_iter_stable_utxo(full_utxo_set: &UtxoSet, outpoint: OutPoint) -> (r: Utxo)
+//@|     requires
+//@|         // the stable address index lists only outpoints that are in the stable UTXO map (the repo traps otherwise)
+//@|         stable_utxo_spec(full_utxo_set, outpoint) is Some,
+//@|     ensures
+//@|         r.outpoint == outpoint,
+//@|         r.value == stable_utxo_spec(full_utxo_set, outpoint).unwrap().0.value,
+//@|         r.height == stable_utxo_spec(full_utxo_set, outpoint).unwrap().1,
+//@end
